@@ -334,4 +334,27 @@ def disableEom (maxSeq : Option Nat) (c : ChanState) (skipBuffer : Bool) : CRes 
         else CRes.lift c (waitForFall maxSeq c)
       | none => CRes.lift c (waitForFall maxSeq c)
 
+/-- `limit is not None and x > limit`. -/
+def overRat (m : Option Rat) (x : Rat) : Bool :=
+  match m with
+  | some m => decide (x > m)
+  | none => false
+
+/-- `limit is not None and x < limit`. -/
+def underRat (m : Option Rat) (x : Rat) : Bool :=
+  match m with
+  | some m => decide (x < m)
+  | none => false
+
+/-- `Channel.validate_pulse` / `DMM.validate_pulse` on the oracle summary. -/
+def validatePulse (c : ChanState) (σ : PulseSummary) : Except Err Unit :=
+  if overRat c.cfg.maxAmp σ.maxAmp then .error .ampOverMax
+  else if overRat c.cfg.maxAbsDet σ.maxAbsDetR then .error .detOverMax
+  else if 0 < σ.avgAmp ∧ σ.avgAmp < c.cfg.minAvgAmp then .error .avgAmpLow
+  else if !c.cfg.isDmm then .ok ()
+  else if σ.maxDetR > 0 then .error .dmmPositive
+  else if underRat c.cfg.bottom (c.maxW * σ.minDetR) then .error .dmmBottom
+  else if underRat c.cfg.totalBottom (c.sumW * σ.minDetR) then .error .dmmTotalBottom
+  else .ok ()
+
 end Pulser
